@@ -35,3 +35,7 @@ Definition eq_race (a b : race_obs) : bool :=
 
 (** C05's projection: how often the recording was handed over, and whether it is still active *)
 Definition eq_race_final (a b : race_obs) : bool := Bool.eqb (ar_ a) (ar_ b) && Nat.eqb (handed a) (handed b).
+
+(** C09's projection: is the shared part of the recorder idle (recording, parameters, forced sampling)? *)
+Definition eq_race_idle (a b : race_obs) : bool :=
+  Bool.eqb (ar_ a) (ar_ b) && Bool.eqb (ap_ a) (ap_ b) && Bool.eqb (fs_ a) (fs_ b).
